@@ -7,6 +7,6 @@ for d in $base/C*/SEED/[ab]; do
   [ -f "$d/meta.json" ] || continue
   [ "${FORCE:-}" = 1 ] || grep -q "\"seed\":\"$d\"" $res && continue
   id=$(echo $d | sed 's#.*/\(C[0-9][0-9]\)/SEED/.*#\1#')
-  /verif/tools/seed_eval.sh $d $id >> $res
+  "${VERIF_HOME:-/verif}"/tools/seed_eval.sh $d $id >> $res
   tail -1 $res | cut -c1-420
 done
